@@ -545,6 +545,53 @@ def fam_history(tier="quick", seed=0):
                                steps=steps, optimized=optimized, opts=dict(flip=bool(k % 2)))
 
 
+@_guard
+def rt_mask_reuse(cfg):
+    """The result is determined by the VALUE of the mask handed to each call: one work tensor is refilled in place between calls
+    (copy_ / item assignment); every reconstruction (and every BrightFieldContext) must equal that of a fresh object given a fresh copy."""
+    import torch
+
+    dp, stack, mask = _build(cfg)
+    fresh = _build(cfg)[0]
+    work = torch.zeros_like(dp.bf_mask)
+    problems = []
+    for step, rows in enumerate(cfg["masks"]):
+        m = _submask(dp, rows)
+        if step % 2 == 0:
+            work.copy_(m)
+        else:
+            work[:] = m
+        bf = dp._return_bf_context(work)
+        want = torch.nonzero(m, as_tuple=True)
+        if bf.num_bf != len(rows) or not (torch.equal(bf.bf_inds_i, want[0]) and torch.equal(bf.bf_inds_j, want[1])):
+            problems.append(f"call {step + 1}: context lists pixels {list(zip(bf.bf_inds_i.tolist(), bf.bf_inds_j.tolist()))} for mask pixels {list(zip(want[0].tolist(), want[1].tolist()))}")
+        o = cfg.get("opts", {})
+        kw = dict(upsampling_factor=cfg.get("u"), max_batch_size=cfg.get("batch"), deconvolution_kernel=cfg.get("kernel", "ssb"),
+                  parallax_flip_phase=o.get("flip", True), verbose=False)
+        dp.reconstruct(bf_mask=work, **kw)
+        got = dp.corrected_stack.detach().clone().double().numpy()
+        fresh.reconstruct(bf_mask=m.clone(), **kw)
+        ref = fresh.corrected_stack.detach().clone().double().numpy()
+        d, sc = _dev(got, ref)
+        if d != 0.0:
+            problems.append(f"call {step + 1} (mask rows {rows}, tensor refilled in place): differs from a fresh copy of the same mask by {d:.3g} (scale {sc:.3g})")
+    return dict(violated=bool(problems), observed="; ".join(problems[:3]) or "ok", expected="every call equals the call with a fresh tensor of the same value (bitwise)")
+
+
+def fam_mask_reuse(tier="quick", seed=0):
+    k = 0
+    for gi, g in enumerate(_GEOMS[:3] if tier == "quick" else _GEOMS):
+        n = _nbf(g)
+        A = _proper_sub(n, 0)
+        B = [p for p in range(n) if p not in A]
+        C = _proper_sub(n, 2)
+        for kernel in ("ssb", "prlx", "mf") if tier == "quick" else ("ssb", "obf", "mf", "prlx", "icom"):
+            for masks in ([A, B], [B, A, list(range(n))], [C, A, C]):
+                k += 1
+                yield dict(g, kernel=kernel, u=1 + k % 2, abers=_ABERS[1 + k % 3], rot=[0.0, 0.3][k % 2], seed=seed + k, batch=[None, 2][k % 2],
+                           masks=[sorted(set(m)) for m in masks], opts=dict(flip=bool(k % 2)))
+
+
 def rt_getter(inp):
     """HyperparameterState.current_aberrations / current_rotation_angle on the real class: fresh mapping, specified contents, state untouched."""
     import copy
@@ -989,9 +1036,32 @@ def sub_mask(ctx, o, name="M"):
 
 
 def bfc_setup(ctx):
+    """Pre-state: a fresh object, OR an object on which this very function already ran - with another tensor object, or with the SAME
+    tensor object that then held an arbitrary other mask value and was refilled in place by the caller (copy_, m[:] = ...)."""
     o = dp_obj(ctx)
     m = sub_mask(ctx, o)
-    return NS(self=o, bf_mask=m if m is not None else o.fields["_bf_mask"])
+    history = pick(ctx, "history", ["fresh-object", "earlier-call-other-tensor"] + (["earlier-call-same-tensor-refilled-in-place"] if m is not None else []))
+    return NS(self=o, bf_mask=m if m is not None else o.fields["_bf_mask"], history=history)
+
+
+def bfc_earlier_call(s):
+    """Run the real function once (interpreted) to obtain the pre-state 'already served an earlier call'."""
+    from pyvc.interp import RaiseSig
+
+    o, S = s.self, s.self.fields["$S"]
+    other = Mask("M_earlier", sub_of=S)
+    if s.history == "earlier-call-other-tensor":
+        arg = TT((("det", 0), ("det", 1)), "G", "C", "free", kind="mask", ref=other)
+    else:
+        arg = s.bf_mask
+        s.now = arg.ref
+        arg.ref = other               # the same tensor object held another value then ...
+    try:
+        s.interp.call_closure(s.interp.closure_of(C_BFCONTEXT.real), [o, arg], {})
+    except RaiseSig as r:
+        cm.note("untypable", False, f"the earlier call raised {type(r.exc).__name__}")
+    if s.history != "earlier-call-other-tensor":
+        arg.ref = s.now               # ... and was refilled in place with the value of THIS call
 
 
 def bfc_post(o, bf, mask_tt):
@@ -1028,12 +1098,27 @@ def bfc_requires(s):
     stash(s)
     m = s.bf_mask
     ok = isinstance(m, TT) and m.tkind == "mask" and m.ref.within(s.self.fields["$S"])
+    if s.mode == "verify" and s.get("history", "fresh-object") != "fresh-object":
+        bfc_earlier_call(s)
     return [("bf_mask is the construction mask or a sub-mask of it", msg_goal(ok, describe(m)))]
 
 
+def bfc_snapshot(s):
+    m = s.bf_mask
+    return NS(fields=container_snapshot(s.self.fields), mask=(m, getattr(m, "ref", None)))
+
+
+def bfc_frame(s):
+    ch = container_changes(s.self.fields, s.old.fields, "self.")
+    m0, ref0 = s.old.mask
+    if s.bf_mask is not m0 or getattr(s.bf_mask, "ref", None) is not ref0:
+        ch.append("the caller's mask tensor was written")
+    return [("frame: no attribute of self is created or changed (no state outlives the call), the mask argument is not written", msg_goal(not ch, ch))]
+
+
 C_BFCONTEXT = Contract(
-    f"{DP}:DirectPtychography._return_bf_context", setup=bfc_setup, requires=bfc_requires,
-    ensures=lambda s: (journal_obligations(s) if s.mode == "verify" else []) + bfc_post(s.self, s.result, s.bf_mask),
+    f"{DP}:DirectPtychography._return_bf_context", setup=bfc_setup, requires=bfc_requires, snapshot=bfc_snapshot,
+    ensures=lambda s: (journal_obligations(s) if s.mode == "verify" else []) + bfc_post(s.self, s.result, s.bf_mask) + bfc_frame(s),
     result=bfc_result, inline=DP_PROPS)
 
 
@@ -1593,7 +1678,7 @@ LEMMAS = [
 # ------------------------------------------------------------------------------------------------
 # run-time oracle attached to the contracts (replay of failed obligations on the real code; first failing input is cached)
 # ------------------------------------------------------------------------------------------------
-_CHECKS = {"history": (rt_history, fam_history), "crop": (rt_crop, fam_crop), "batch": (rt_batch, fam_batch), "linear": (rt_linear, fam_linear), "recombine": (rt_recombine, fam_recombine),
+_CHECKS = {"reuse": (rt_mask_reuse, fam_mask_reuse), "history": (rt_history, fam_history), "crop": (rt_crop, fam_crop), "batch": (rt_batch, fam_batch), "linear": (rt_linear, fam_linear), "recombine": (rt_recombine, fam_recombine),
            "parallax": (rt_parallax, fam_parallax), "context": (rt_bf_context, fam_bf_context), "aliases": (rt_aliases, fam_aliases)}
 _REPLAY_CACHE = {}
 
@@ -1626,7 +1711,7 @@ def fam_any_cached(names):
 
 
 for _c, _names in ((C_RECONSTRUCT, ["batch", "recombine", "parallax", "linear", "history"]), (C_KERNEL, ["batch", "parallax", "linear", "recombine"]),
-                   (C_GAMMA, ["batch", "linear"]), (C_BFCONTEXT, ["context", "parallax"]), (C_PREPROCESS, ["parallax", "linear"])):
+                   (C_GAMMA, ["batch", "linear"]), (C_BFCONTEXT, ["context", "reuse", "parallax"]), (C_PREPROCESS, ["parallax", "linear"])):
     _c.rt, _c.rt_family = rt_any, fam_any_cached(_names)
 C_KERNELNAME.rt, C_KERNELNAME.rt_family = rt_kernel_name, fam_kernel_name
 C_CROP.rt, C_CROP.rt_family, C_CROP.concretize = rt_cropfn, fam_cropfn, (lambda ev: None)
@@ -1678,6 +1763,8 @@ BOUNDED = [
                     "3 geometries (5 in thorough) x 3 kernels (5) x 5 call sequences x optimised aberrations empty / present; later call == first == fresh object, bitwise"),
     Bounded.from_rt("_crop_corner_centered_mask keeps the signed frequencies of all pixels (function level)", rt_cropfn, fam_cropfn,
                     "8 detector shapes 1x3 .. 8x8, 45 mask extents each incl. Nyquist rows / full axes, padding 0..2"),
+    Bounded.from_rt("mask tensor refilled in place between calls: the result follows the mask VALUE", rt_mask_reuse, fam_mask_reuse,
+                    "3 geometries (5 in thorough) x 3 kernels (5) x 3 mask sequences through one work tensor (copy_ / item assignment); context and reconstruction vs a fresh object"),
     Bounded.from_rt("HyperparameterState getters are pure", rt_getter, fam_getter, "initial/optimized empty or not x 4 overrides x 5 rotation settings, two calls each"),
     Bounded.from_rt("construction mask cropping (crop_bf_mask=True) keeps pixels at their detector frequencies", rt_crop, fam_crop,
                     "detectors 8x8, 7x7, 6x9; 7 mask extents (symmetric, heavier to either side, touching the array edge); padding 0..2", klass=crop_class),
